@@ -236,14 +236,18 @@ StepDiv(i, s) ==
                ELSE WrReg(WrReg(p, AccC(w), 0, q), AccC(w), 2, Norm(qr[2], w))) EXCEPT !.fl = AllU(s.fl)]
 
 \* ---- bit test / scan ----------------------------------------------------------------------
+\* register offset with a memory base: the addressed word is base + (w/8) * floor(offset / w), offset signed;
+\* an immediate offset only selects the bit (taken modulo the operand size)
+BitAddr(i, s) ==
+   LET w == i.w  d == i.ops[1]  o == i.ops[2]
+       adj == IF o.k = "reg"
+              THEN Mul(SarN(SExt(Rd(o, w, s), w, 32), IF w = 16 THEN 4 ELSE 5, 32), Const(w \div 8), 32) ELSE Zero(32)
+   IN Add(EA(d, s), adj, 32)
 StepBit(i, s) ==
    LET w == i.w  d == i.ops[1]  o == i.ops[2]  p == Keep(i, s)
        off == Rd(o, w, s)                             \* imm8 offsets arrive extended to w
        bitno == G(off, 1) % w                         \* w is 16 or 32: offset mod w = low byte mod w
-       \* register offset with a memory base: the addressed word is base + (w/8) * floor(offset / w), offset signed
-       adj == IF d.k = "mem" /\ o.k = "reg"
-              THEN Mul(SarN(SExt(off, w, 32), IF w = 16 THEN 4 ELSE 5, 32), Const(w \div 8), 32) ELSE Zero(32)
-       addr == IF d.k = "mem" THEN Add(EA(d, s), adj, 32) ELSE Zero(32)
+       addr == IF d.k = "mem" THEN BitAddr(i, s) ELSE Zero(32)
        a == IF d.k = "mem" THEN Load(s, addr, w) ELSE Rd(d, w, s)
        m == ShlN(FromNat(1, w), bitno, w)
        res == CASE i.mn = "bts" -> BOr(a, m, w) [] i.mn = "btr" -> BAnd(a, BNot(m, w), w) [] i.mn = "btc" -> BXor(a, m, w) [] OTHER -> a
